@@ -4,8 +4,8 @@ Only property theorems and non-vacuity examples live here; helper lemmas are in
 Proofs/Shape*.lean.  The engine model (Model/ShapeEngine.lean) mirrors
 opentype/gtab/{layout,filter,gsub,nested,gpos,gpos4,gpos6}.go as repaired for DESIGN §9 #11 #12 #13 #14
 #15 #33 and, from property C06, #32 (GSUB type 8 lookups are applied from the end of the string by the
-structurally recursive `revLoop`), C06-ch3 / C06-ch3skip (ChainedSeqContext3.apply) and C06-attach
-(GPOS 4.1 / 6.1 offsets); `Shape.apply B ll gd lookups stack seq` is one call `ctx.Apply(seq)` on a context
+structurally recursive `revLoop`), C06-ch3 / C06-ch3skip (ChainedSeqContext3.apply), C06-attach
+(GPOS 4.1 / 6.1 offsets) and C06-base (GPOS 4.1 / 6.1 search for the glyph attached to); `Shape.apply B ll gd lookups stack seq` is one call `ctx.Apply(seq)` on a context
 with lookup list `ll`, GDEF `gd`, lookup indices `lookups` and persistent stack `stack`;
 `B` is the nested-action budget (64 in the source; the theorems hold for every `B`).
 
